@@ -16,12 +16,12 @@ Definition raw_target (e : env) (url : str) : res (option str) :=
       | Some m =>
           let g1 := match group url m 1 with Some g => g | None => [] end in
           let g2 := match group url m 2 with Some g => g | None => [] end in
-          if str_eqb g1 (lit "q") && negb (contains (lit "/url?q=") url) && negb (contains (lit "/redirect") url)
+          if str_eqb g1 (lit "q") && negb (contains (lit "/url?") url) && negb (contains (lit "/redirect") url)
           then Ok None
           else
             let pt := unquote g2 in
-            if starts (lit "https://") pt && Nat.ltb 8 (length pt) then Ok (Some pt)
-            else if starts (lit "http://") pt && Nat.ltb 7 (length pt) then Ok (Some pt)
+            if starts (lit "https://") (lower (firstn 8 pt)) && Nat.ltb 8 (length pt) then Ok (Some pt)
+            else if starts (lit "http://") (lower (firstn 8 pt)) && Nat.ltb 7 (length pt) then Ok (Some pt)
             else if starts [47%N] pt then
               match urljoin e url pt with
               | Ok t => Ok (Some t)
